@@ -354,3 +354,127 @@ def _gen_search(rng):
 
 search.gen = _gen_search
 search.raises["RuntimeError"] = "True"
+
+
+# ------------------------------------------------------------- SliceFinder.trial
+# C07 'forbidden indices are never chosen' and 'what is cached under a set of indices IS the slicing by that set':
+# trial() only ever adds cache entries whose key is disjoint from `forbidden`, and every entry's remaining
+# size_dict is the base one minus exactly the indices of its key.  best() (proved above) then only returns
+# cached entries.  The figures of an entry (size, overhead, nslices) are those of ContractionCosts.remove,
+# whose contract is proved above; here remove is the assumed step "the index leaves size_dict".
+TrialCost = Ty.Rec("ContractionCosts", {"size": Ty.Int, "overhead": Ty.Real, "nslices": Ty.Int, "size_dict": Ty.Map(Ty.Key, Ty.Int)}, mutable=False)
+TrialFinderT = ObjT("SliceFinder", {"costs": Ty.Map(Ty.Key, TrialCost), "forbidden": SetK, "target_size": Ty.Opt(Ty.Int), "target_overhead": Ty.Opt(Ty.Real),
+                                    "target_slices": Ty.Opt(Ty.Int), "temperature": Ty.Opt(Ty.Real)})
+
+
+def x_max_key(engine, st, _a, node, kw):
+    """max(d, key=...): some key of d (ValueError if d is empty)"""
+    import z3
+
+    d = engine.deref(st, engine.eval(st, node.args[0]))
+    if not (isinstance(d, V) and isinstance(d.t, Ty.Map)):
+        raise _Unsupported("max() of something else")
+    empty = d.c[0] == z3.K(Ty.IntS, z3.BoolVal(False))
+    dd = st.decided(empty)
+    if dd is None:
+        raise _NeedSplit(empty)
+    if dd:
+        raise _RaiseSignal("ValueError")
+    k = engine.fresh(st, "chosen_ix", node, Ty.IntS)
+    st.assume(d.c[0][k])
+    return V(Ty.Key, [k])
+
+
+x_max_key.raw = True
+
+
+def x_cost_remove(engine, st, args, node, kw):
+    """cost.remove(ix) (not in place): a new costs object whose size_dict has lost exactly ix (ContractionCosts.remove)"""
+    import z3
+
+    cost, ix = engine.deref(st, args[0]), engine.keyterm(engine.deref(st, args[1]))
+    names = list(TrialCost.fields)
+    new = Ty.havoc(TrialCost, f"removed@{engine.line(node)}")
+    sd_new = Ty.split(TrialCost, new.c)[names.index("size_dict")]
+    sd_old = Ty.split(TrialCost, cost.c)[names.index("size_dict")]
+    st.assume(sd_new.c[0] == z3.Store(sd_old.c[0], ix, False))
+    return new
+
+
+BASE = "keys(self.costs[frozenset()].size_dict)"
+CACHE_OK = f"forall(keys(self.costs), lambda k: keys(self.costs[k].size_dict) == minus({BASE}, members(k)))"
+NOFORB = "forall(keys(self.costs), lambda k: inter(members(k), self.forbidden) == empty())"
+
+trial = Contract(
+    target="cotengra.slicer:SliceFinder.trial",
+    props=["C07"],
+    self_type=TrialFinderT,
+    params={"target_size": Ty.Opt(Ty.Int), "target_overhead": Ty.Opt(Ty.Real), "target_slices": Ty.Opt(Ty.Int), "temperature": Ty.Opt(Ty.Real)},
+    requires=["frozenset() in self.costs", CACHE_OK, NOFORB],
+    returns=TrialCost,
+    modifies=["self.costs"],
+    raises={"RuntimeError": "True", "ValueError": "True"},
+    externals={"SliceFinder._maybe_default": x_maybe_default, "max": x_max_key, "*.remove": x_cost_remove},
+    hints={"ix_sl": SetK, "next_ix_sl": SetK, "cost": TrialCost, "next_cost": TrialCost, "ix": Ty.Key},
+    nloops=1,
+    loops={0: Loop(inv=[
+        "frozenset() in self.costs", CACHE_OK, NOFORB,
+        "ix_sl in self.costs and cost == self.costs[ix_sl]",
+        "inter(ix_sl, self.forbidden) == empty()",
+        f"{BASE} == old({BASE})",
+        # entries are only ever added
+        "forall(keys(old(self.costs)), lambda k: k in self.costs and self.costs[k] == old(self.costs)[k])",
+    ])},
+    ensures=[
+        "frozenset() in self.costs", CACHE_OK, NOFORB,
+        "forall(keys(old(self.costs)), lambda k: k in self.costs and self.costs[k].size == old(self.costs)[k].size and self.costs[k].nslices == old(self.costs)[k].nslices)",
+    ],
+    # entries are only ever added; what is handed back is a cached slicing: the one cached under the set of indices chosen (never a forbidden one)
+    ensures_t1=["forall(keys(old(self.costs)), lambda k: k in self.costs and self.costs[k] == old(self.costs)[k])",
+                "ix_sl_final in self.costs and self.costs[ix_sl_final] == result and inter(ix_sl_final, self.forbidden) == empty()"],
+    assumptions=["max(d, key=f) returns a key of d (ValueError if d is empty); cost.remove(ix) returns a costs object whose size_dict has lost exactly ix (the ContractionCosts.remove contract);"
+                 " a frozenset used as a dict key stands for its members (injective key function)"],
+)
+trial.expose = ("ix_sl",)
+trial.budget_ms = 8000  # every obligation needs < 1 s on the pinned tree
+CONTRACTS.append(trial)
+
+
+def _members(k):
+    return frozenset(k)
+
+
+def _inter(a, b):
+    return frozenset(a) & frozenset(b)
+
+
+def _gen_trial(rng):
+    import cotengra as ctg
+    from cotengra.slicer import SliceFinder
+    from ..scope import random_tree_ssa
+
+    n = rng.randint(3, 6)
+    con = ctg.utils.rand_equation(n, 3, n_out=rng.randint(0, 2), seed=rng.randint(0, 10**6), d_min=2, d_max=4)
+    tree = ctg.ContractionTree.from_path(con.inputs, con.output, con.size_dict, ssa_path=random_tree_ssa(n, rng))
+    size0 = tree.max_size()
+    kind = rng.random()
+    if kind < 0.5:
+        opts = {"target_size": max(1, size0 // rng.choice((2, 4, 8)))}
+    elif kind < 0.75:
+        opts = {"target_slices": rng.choice((2, 4, 8))}
+    else:
+        opts = {"target_overhead": rng.choice((1.0, 1.5, 4.0))}
+    sf = SliceFinder(tree, allow_outer=rng.random() < 0.5, seed=rng.randint(0, 99), **opts)
+    for _ in range(rng.randint(0, 3)):
+        try:
+            sf.trial()
+        except (RuntimeError, ValueError):
+            pass
+    return {"self": sf, "args": (None, None, None, rng.choice((None, 0.01, 1.0))),
+            "describe": f"{con.inputs}->{con.output} sizes {con.size_dict} path {tree.get_path()} {opts} forbidden={sorted(sf.forbidden)} cached={len(sf.costs)}"}
+
+
+trial.gen = _gen_trial
+trial.pre_must_hold = True  # the cache invariants must hold on finders built and used through the public API
+trial.natives = {"members": _members, "inter": _inter}
+trial.ensures_rt = ["any(c is result for c in self.costs.values())"]
